@@ -198,7 +198,7 @@ func Prop(c Case, x *h.Ctx) *h.Violation {
 	}
 	st, err := os.Stat(path)
 	if err != nil {
-		panic(err)
+		panic(h.Infra{Msg: "harness file operation failed: " + err.Error()})
 	}
 	fileLen := uint64(st.Size())
 	if !c.Direct && fileLen != finalSize {
